@@ -73,7 +73,10 @@ def render(tokens):
     return " ".join(out)
 
 
-SOURCES = tuple(t for t, _ in G.TEMPLATES) + ADVERSARIAL
+# layout kept append-only (recorded witnesses index into it): the first 20 templates, the adversarial documents, then templates added later
+SOURCES = tuple(t for t, _ in G.TEMPLATES[:20]) + ADVERSARIAL + tuple(t for t, _ in G.TEMPLATES[20:])
+GIVEN = {SOURCES.index(t): v for t, v in G.TEMPLATES}
+VALID_TEMPLATE = frozenset(GIVEN)
 _TOKENS = [tokens_of(s) for s in SOURCES]
 MAXLEN = max(len(t) for t in _TOKENS)
 NS = len(SOURCES)
@@ -150,7 +153,7 @@ def _sound_edit(src: int, kind: int, pos: int, code: int) -> bool:
         t = pick(code, ALPHABET)
         new = toks[:P] + [t] + (toks[P:] if K == 2 else toks[P + 1:])
     with untraced():
-        given = G.TEMPLATES[S][1] if S < len(G.TEMPLATES) else {}
+        given = GIVEN.get(S, {})
         ok, reached = check_document(render(new), given)
     return result(ok, reached)
 
@@ -163,7 +166,7 @@ def _sound_source(src: int, fail: int) -> bool:
     S = concrete_int(src, 0, NS - 1)
     F = pick(fail, G.FAILS)
     with untraced():
-        given = G.TEMPLATES[S][1] if S < len(G.TEMPLATES) else {}
+        given = GIVEN.get(S, {})
         ok, reached = check_document(SOURCES[S], given, F)
     return result(ok, reached)
 
